@@ -610,13 +610,33 @@ def empty_grid_case(draw):
             "pts": [[draw(fval), draw(fval)]
                     for _ in range(draw(st.integers(0, 3)))],
             "csz": draw(st.sampled_from([1., 0.5])),
-            "which": draw(st.integers(0, 7))}
+            "which": draw(st.integers(0, 12))}
 
 
-@entry("Grid.without-rows-or-columns", empty_grid_case())
-def _(c):
+def empty_grid_call(c):
     nr, nc = c["shape"]
     w = c["which"]
+    if w >= 8:
+        # a catchment rebuilt from a dictionary (cells as stored), then the
+        # kernels that turn its cells into coordinates
+        fd = Grid("fd", nc, nr, dtype=np.int64)
+        cells = [k for k in c["cells"] if k >= 0] or [0, 1]
+        ca = Catchment.from_dict({
+            "name": "c", "flowdir": fd.to_dict(), "idxcell_outlet": 0,
+            "idxinlets": None, "idxcells_area": cells,
+            "idxcells_area_filled": cells})
+        if w == 8:
+            voronoi(ca, M(c["pts"] or [[0., 0.]], 2))
+        elif w == 9:
+            ca.intersect(Grid("g", 2, 2, cellsize=2.))
+        elif w == 10:
+            ca.delineate_boundary()
+        elif w == 11:
+            ca.compute_flowpathlengths()
+        else:
+            ca.isin(c["cell"])
+            ca.extent()
+        return
     if w >= 5:
         fd = Grid("fd", nc, nr, dtype=np.int64)
         ca = Catchment("c", fd)
@@ -1245,4 +1265,31 @@ def border_oracle(case):
 
 SUBS.append(Sub("C05.grid-right-border-sweep", border_oracle,
                 enumerate=border_enum, shards=(16, 16), budget=(600, 3600),
+                bucket=lambda msg: bucket(msg.split("]: ", 1)[-1])))
+
+
+# ---------------------------------------- grids without rows and / or columns
+# (small finite space: every shape x every kernel x a few cell lists)
+def empty_grid_enum(tier):
+    for shape in ([0, 3], [3, 0], [0, 0], [0, 1], [1, 0], [5, 0]):
+        for which in range(13):
+            for cells, cell in (([0, 1], 0), ([], -1), ([2, -1, 7], 3)):
+                yield {"shape": shape, "cells": cells, "cell": cell,
+                       "pts": [[0., 0.], [1.5, -2.]][:1 + which % 2],
+                       "csz": [1., 0.5][which % 2], "which": which}
+
+
+def empty_grid_oracle(case):
+    res = forked(lambda: seeded(empty_grid_call, case))
+    if res == "TIMEOUT":
+        return {"nt": False, "labels": ["timeout:inconclusive"]}
+    if res is not None:
+        raise Violation(f"sanitizer/crash [{bucket(res)}]: {res}")
+    return {"nt": True, "labels": [f"shape:{case['shape'][0]}x"
+                                   f"{case['shape'][1]}"]}
+
+
+SUBS.append(Sub("C05.Grid.without-rows-or-columns", empty_grid_oracle,
+                enumerate=empty_grid_enum, shards=(16, 16),
+                budget=(600, 3600),
                 bucket=lambda msg: bucket(msg.split("]: ", 1)[-1])))
